@@ -16,7 +16,7 @@ import (
 func init() { register("C13", checkC13) }
 
 func checkC13(c *core.Ctx) {
-	c.Explainf("C13 (decided clause: exhaustiveness of the hand-enumerated checks; that each check's predicate is right is behaviour and NOT decided). R1 facet x kind matrix over File.Validate: for each of enum, struct, message, union the loop over that kind must perform every applicable check — primitive-name clash (lookup in primitiveTypes), duplicate definition (customTypes), duplicate member names (a per-definition name set), duplicate enum values (signed and unsigned sets), duplicate opcode (allOpCodes), and a walk reaching typeDefined for every field-bearing kind incl. the struct/message branches of a union; union branches are checked like definitions of their own. R2: message and union indices are parsed with ParseUint(_, 10, 8), tested against the existing map before insertion, and a zero message index is rejected. R3: the enum option parser's bit size flows from decodeIntegerType, and the flag-expression evaluators do not narrow a 64-bit parse result without a range test. R4: readConst's type switch covers every primitive with an arm that tests the token kind, and has an erroring default. R5: the struct-recursion fixpoint only ever adds `true` entries (monotone, hence terminating) and propagates only through struct names.")
+	c.Explainf("C13 (decided clause: exhaustiveness of the hand-enumerated checks; that each check's predicate is right is behaviour and NOT decided). R1 facet x kind matrix over File.Validate: for each of enum, struct, message, union the loop over that kind must perform every applicable check — primitive-name clash (lookup in primitiveTypes), duplicate definition (customTypes), duplicate member names (a per-definition name set), duplicate enum values (signed and unsigned sets), duplicate opcode (allOpCodes), and a walk reaching typeDefined for every field-bearing kind incl. the struct/message branches of a union; union branches are checked like definitions of their own. R1c: every name stored into the set typeDefined consults is traced to the collection it ranges over, which must be one of the four definition lists, the union branches or the primitive table (a const or option name in that set would pass as a type). R2: message and union indices are parsed with ParseUint(_, 10, 8), tested against the existing map before insertion, and a zero message index is rejected. R3: the enum option parser's bit size flows from decodeIntegerType, and the flag-expression evaluators do not narrow a 64-bit parse result without a range test. R4: readConst's type switch covers every primitive with an arm that tests the token kind, and has an erroring default. R5: the struct-recursion fixpoint only ever adds `true` entries (monotone, hence terminating) and propagates only through struct names.")
 	p := loadRepo(c)
 	if p == nil {
 		return
@@ -32,24 +32,34 @@ func checkC13(c *core.Ctx) {
 	type facts map[string]bool
 	kinds := map[string]facts{"Enums": {}, "Structs": {}, "Messages": {}, "Unions": {}, "UnionBranch": {}}
 	// helper functions called from Validate that take part in a facet
+	defSets := definedTypeSets(info, fd)
 	var scan func(n ast.Node, kind string, depth int)
 	scan = func(n ast.Node, kind string, depth int) {
 		ast.Inspect(n, func(m ast.Node) bool {
 			switch x := m.(type) {
 			case *ast.IndexExpr:
-				switch wire.Canon(x.X) {
-				case "primitiveTypes":
+				// maps are told apart by role, not by name: the package-level table
+				// of primitives; the set of defined type names (whatever reaches
+				// typeDefined); the opcode table (keyed by uint32)
+				var mobj types.Object
+				if id, isId := ast.Unparen(x.X).(*ast.Ident); isId {
+					mobj = info.ObjectOf(id)
+				}
+				isDefSet := mobj != nil && defSets[mobj]
+				isPkgLevel := mobj != nil && mobj.Parent() == pkg.Types.Scope()
+				switch {
+				case wire.Canon(x.X) == "primitiveTypes":
 					kinds[kind]["primitive"] = true
-				case "customTypes":
+				case isDefSet:
 					kinds[kind]["dupdef"] = true
-				case "allOpCodes":
-					kinds[kind]["opcode"] = true
 				}
 				if t := info.TypeOf(x.X); t != nil {
 					if mt, ok := t.Underlying().(*types.Map); ok {
+						if k, ok := mt.Key().Underlying().(*types.Basic); ok && k.Kind() == types.Uint32 {
+							kinds[kind]["opcode"] = true
+						}
 						if _, isEmpty := mt.Elem().Underlying().(*types.Struct); isEmpty && mt.Elem().Underlying().(*types.Struct).NumFields() == 0 {
-							nm := wire.Canon(x.X)
-							if nm != "primitiveTypes" && nm != "customTypes" && nm != "allTypes" && nm != "allConsts" {
+							if !isDefSet && !isPkgLevel {
 								if k, ok := mt.Key().Underlying().(*types.Basic); ok {
 									if k.Info()&types.IsString != 0 {
 										kinds[kind]["dupname"] = true
@@ -81,11 +91,10 @@ func checkC13(c *core.Ctx) {
 			if !ok {
 				continue
 			}
-			src := wire.Canon(rs.X)
-			if !strings.HasPrefix(src, "f.") {
+			kind := fileField(info, rs.X)
+			if kind == "" {
 				continue
 			}
-			kind := strings.TrimPrefix(src, "f.")
 			if _, tracked := kinds[kind]; !tracked {
 				continue
 			}
@@ -163,7 +172,7 @@ func checkC13(c *core.Ctx) {
 	branchSets := map[string]bool{}
 	ast.Inspect(fd.Body, func(m ast.Node) bool {
 		rs, ok := m.(*ast.RangeStmt)
-		if !ok || !strings.HasPrefix(wire.Canon(rs.X), "f.Unions") {
+		if !ok || fileField(info, rs.X) != "Unions" {
 			return true
 		}
 		ast.Inspect(rs.Body, func(k ast.Node) bool {
@@ -186,7 +195,7 @@ func checkC13(c *core.Ctx) {
 	consulted := false
 	ast.Inspect(fd.Body, func(m ast.Node) bool {
 		rs, ok := m.(*ast.RangeStmt)
-		if !ok || !strings.HasPrefix(wire.Canon(rs.X), "f.Unions") {
+		if !ok || fileField(info, rs.X) != "Unions" {
 			return true
 		}
 		v := wire.Canon(rs.Value)
@@ -299,15 +308,26 @@ func checkC13(c *core.Ctx) {
 	}
 
 	// ---- R3
+	bitParam := -1
 	if f := p.FuncDecl(pkg, "readEnumOptionValue"); f != nil {
 		okBits := 0
 		ast.Inspect(f.Body, func(m ast.Node) bool {
 			if call, ok := m.(*ast.CallExpr); ok && len(call.Args) == 3 {
 				fn := wire.Canon(call.Fun)
 				if fn == "strconv.ParseUint" || fn == "strconv.ParseInt" {
+					// the bit size is the function's own integer parameter (fed from
+					// decodeIntegerType by readEnum, below), not a constant
 					if id, ok := ast.Unparen(call.Args[2]).(*ast.Ident); ok {
-						if v, ok := info.ObjectOf(id).(*types.Var); ok && v.Name() == "bitsize" {
-							okBits++
+						if v, ok := info.ObjectOf(id).(*types.Var); ok {
+							for i, pi := 0, 0; i < len(f.Type.Params.List); i++ {
+								for _, nm := range f.Type.Params.List[i].Names {
+									if info.ObjectOf(nm) == types.Object(v) {
+										okBits++
+										bitParam = pi
+									}
+									pi++
+								}
+							}
 						}
 					}
 				}
@@ -319,8 +339,31 @@ func checkC13(c *core.Ctx) {
 		c.Undecide("readEnumOptionValue not found")
 	}
 	if f := p.FuncDecl(pkg, "readEnum"); f != nil {
-		src := srcOf(p, f.Body)
-		c.Check("R3", "readEnum derives bit size and signedness from decodeIntegerType", p.Pos(f.Pos()), strings.Contains(src, ":= decodeIntegerType(en.SimpleType)") && strings.Contains(src, "readEnumOptionValue(tr, en.Options, bitflags, uinttype, bitsize)"), "")
+		// results of decodeIntegerType, and whether one of them is what readEnum
+		// passes as the bit size of readEnumOptionValue
+		fromDecode := map[types.Object]bool{}
+		ast.Inspect(f.Body, func(m ast.Node) bool {
+			if as, ok := m.(*ast.AssignStmt); ok && len(as.Rhs) == 1 {
+				if call, ok := as.Rhs[0].(*ast.CallExpr); ok && wire.Canon(call.Fun) == "decodeIntegerType" {
+					for _, l := range as.Lhs {
+						if id, ok := l.(*ast.Ident); ok {
+							fromDecode[info.ObjectOf(id)] = true
+						}
+					}
+				}
+			}
+			return true
+		})
+		passed := false
+		ast.Inspect(f.Body, func(m ast.Node) bool {
+			if call, ok := m.(*ast.CallExpr); ok && wire.Canon(call.Fun) == "readEnumOptionValue" && bitParam >= 0 && bitParam < len(call.Args) {
+				if id, ok := ast.Unparen(call.Args[bitParam]).(*ast.Ident); ok && fromDecode[info.ObjectOf(id)] {
+					passed = true
+				}
+			}
+			return true
+		})
+		c.Check("R3", "readEnum derives bit size and signedness from decodeIntegerType", p.Pos(f.Pos()), passed, "the bit size handed to readEnumOptionValue is not a result of decodeIntegerType")
 	}
 	for _, name := range []string{"evaluateBitflagExpSigned", "evaluateBitflagExprUnsigned"} {
 		f := p.FuncDecl(pkg, name)
@@ -349,10 +392,25 @@ func checkC13(c *core.Ctx) {
 					return true
 				})
 				if ifs, is := s.(*ast.IfStmt); is && endsInReturn(ifs.Body) {
-					cs := wire.Canon(ifs.Cond)
-					if strings.Contains(cs, "T(") && (strings.Contains(cs, "!=") || strings.Contains(cs, "<") || strings.Contains(cs, ">")) {
-						rangeTest = true
-					}
+					// a comparison one side of which converts the parsed value to the
+					// evaluator's integer type (any type-parameter name)
+					ast.Inspect(ifs.Cond, func(k ast.Node) bool {
+						be, isB := k.(*ast.BinaryExpr)
+						if !isB || (be.Op != token.NEQ && be.Op != token.LSS && be.Op != token.GTR) {
+							return true
+						}
+						ast.Inspect(be, func(q ast.Node) bool {
+							if call, isC := q.(*ast.CallExpr); isC && len(call.Args) == 1 {
+								if tv := info.Types[call.Fun]; tv.IsType() {
+									if _, isTP := tv.Type.(*types.TypeParam); isTP {
+										rangeTest = true
+									}
+								}
+							}
+							return true
+						})
+						return true
+					})
 				}
 			}
 			ok = !parse64 || rangeTest
@@ -392,12 +450,21 @@ func checkC13(c *core.Ctx) {
 						}
 					}
 				}
-				if strings.HasPrefix(src, "cons.SimpleType == ") {
-					if tv := info.Types[cc.List[0].(*ast.BinaryExpr).Y]; tv.Value != nil {
-						covered[strings.Trim(tv.Value.ExactString(), `"`)] = true
+				if be, isB := ast.Unparen(cc.List[0]).(*ast.BinaryExpr); isB && be.Op == token.EQL {
+					if sel, isS := ast.Unparen(be.X).(*ast.SelectorExpr); isS && sel.Sel.Name == "SimpleType" {
+						if tv := info.Types[be.Y]; tv.Value != nil {
+							covered[strings.Trim(tv.Value.ExactString(), `"`)] = true
+						}
 					}
 				}
-				if !strings.Contains(srcOf(p, cc), "tk.kind") {
+				testsKind := false
+				ast.Inspect(cc, func(k ast.Node) bool {
+					if sel, isS := k.(*ast.SelectorExpr); isS && sel.Sel.Name == "kind" {
+						testsKind = true
+					}
+					return true
+				})
+				if !testsKind {
 					armsTestKind = false
 				}
 			}
@@ -461,23 +528,104 @@ func checkC13(c *core.Ctx) {
 	// usedTypes family: only literal true
 	for _, name := range []string{"FieldType.usedTypes"} {
 		if f := p.FuncDecl(pkg, name); f != nil {
-			src := srcOf(p, f.Body)
-			c.Check("R5", name+" records direct field types with value true", p.Pos(f.Pos()), strings.Contains(src, "map[string]bool{ft.Simple: true}") && strings.Contains(src, "valTypes[ft.Map.Key] = true"), "")
+			// every value put into a usage set here is the constant true
+			stores, allTrue := 0, true
+			ast.Inspect(f.Body, func(m ast.Node) bool {
+				switch x := m.(type) {
+				case *ast.CompositeLit:
+					if t := info.TypeOf(x); t != nil && t.String() == "map[string]bool" {
+						for _, el := range x.Elts {
+							if kv, ok := el.(*ast.KeyValueExpr); ok {
+								stores++
+								if tv := info.Types[kv.Value]; tv.Value == nil || tv.Value.ExactString() != "true" {
+									allTrue = false
+								}
+							}
+						}
+					}
+				case *ast.AssignStmt:
+					for i, l := range x.Lhs {
+						if ix, ok := l.(*ast.IndexExpr); ok && i < len(x.Rhs) {
+							if t := info.TypeOf(ix.X); t != nil && t.String() == "map[string]bool" {
+								stores++
+								if tv := info.Types[x.Rhs[i]]; tv.Value == nil || tv.Value.ExactString() != "true" {
+									allTrue = false
+								}
+							}
+						}
+					}
+				}
+				return true
+			})
+			c.Check("R5", name+" records direct field types with value true", p.Pos(f.Pos()), stores >= 2 && allTrue, fmt.Sprintf("%d stores into usage sets, all constant true: %v", stores, allTrue))
 		}
 	}
 	// delta is only raised when an entry is new
 	deltaGuarded := false
+	loopFlags := map[types.Object]bool{}
 	ast.Inspect(fd.Body, func(m ast.Node) bool {
-		if ifs, is := m.(*ast.IfStmt); is && strings.HasPrefix(wire.Canon(ifs.Cond), "!usage[") {
-			for _, s := range ifs.Body.List {
-				if as, is := s.(*ast.AssignStmt); is && wire.Canon(as.Lhs[0]) == "delta" {
-					deltaGuarded = true
+		if fs, is := m.(*ast.ForStmt); is && fs.Init == nil && fs.Post == nil {
+			if id, isId := ast.Unparen(fs.Cond).(*ast.Ident); fs.Cond != nil && isId {
+				loopFlags[info.ObjectOf(id)] = true
+			}
+		}
+		return true
+	})
+	// the flag must not be raised anywhere else inside the loop
+	unguarded := false
+	ast.Inspect(fd.Body, func(m ast.Node) bool {
+		if as, is := m.(*ast.AssignStmt); is && len(as.Lhs) == 1 && len(as.Rhs) == 1 && as.Tok == token.ASSIGN {
+			if id, isId := as.Lhs[0].(*ast.Ident); isId && loopFlags[info.ObjectOf(id)] {
+				if tv := info.Types[as.Rhs[0]]; tv.Value != nil && tv.Value.ExactString() == "true" {
+					guarded := false
+					ast.Inspect(fd.Body, func(k ast.Node) bool {
+						if ifs, is := k.(*ast.IfStmt); is && ifs.Body.Pos() <= as.Pos() && as.End() <= ifs.Body.End() {
+							if u, isU := ast.Unparen(ifs.Cond).(*ast.UnaryExpr); isU && u.Op == token.NOT {
+								if _, isIx := ast.Unparen(u.X).(*ast.IndexExpr); isIx {
+									guarded = true
+								}
+							}
+						}
+						return true
+					})
+					if !guarded {
+						unguarded = true
+					}
 				}
 			}
 		}
 		return true
 	})
-	c.Check("R5", "the fixpoint continues only when a set grew", p.Pos(fd.Pos()), deltaGuarded, "`delta = true` must be guarded by the entry being new")
+	ast.Inspect(fd.Body, func(m ast.Node) bool {
+		// if !<usage set>[k] { …; <loop flag> = true }: the flag of the enclosing
+		// `for <flag>` loop is raised only when an entry is missing
+		ifs, is := m.(*ast.IfStmt)
+		if !is {
+			return true
+		}
+		u, isU := ast.Unparen(ifs.Cond).(*ast.UnaryExpr)
+		if !isU || u.Op != token.NOT {
+			return true
+		}
+		ix, isIx := ast.Unparen(u.X).(*ast.IndexExpr)
+		if !isIx {
+			return true
+		}
+		if t := info.TypeOf(ix.X); t == nil || t.String() != "map[string]bool" {
+			return true
+		}
+		for _, s := range ifs.Body.List {
+			if as, is := s.(*ast.AssignStmt); is && len(as.Lhs) == 1 && len(as.Rhs) == 1 {
+				if id, isId := as.Lhs[0].(*ast.Ident); isId && loopFlags[info.ObjectOf(id)] {
+					if tv := info.Types[as.Rhs[0]]; tv.Value != nil && tv.Value.ExactString() == "true" {
+						deltaGuarded = true
+					}
+				}
+			}
+		}
+		return true
+	})
+	c.Check("R5", "the fixpoint continues only when a set grew", p.Pos(fd.Pos()), deltaGuarded && !unguarded, "the loop flag is set to true outside a test that the entry is new: the fixpoint loop may never end")
 	_ = token.NoPos
 }
 
@@ -498,38 +646,7 @@ func endsInReturnList(stmts []ast.Stmt) bool {
 func definedSetHoldsTypes(c *core.Ctx, p *load.Prog, fd *ast.FuncDecl) {
 	pkg := p.Bebop()
 	info := pkg.TypesInfo
-	sets := map[types.Object]bool{}
-	ast.Inspect(fd.Body, func(n ast.Node) bool {
-		if call, ok := n.(*ast.CallExpr); ok && wire.Canon(call.Fun) == "typeDefined" && len(call.Args) == 2 {
-			if id, ok := ast.Unparen(call.Args[1]).(*ast.Ident); ok {
-				sets[info.ObjectOf(id)] = true
-			}
-		}
-		return true
-	})
-	// alias closure: a := b makes writes to either visible through both
-	for changed := true; changed; {
-		changed = false
-		ast.Inspect(fd.Body, func(n ast.Node) bool {
-			as, ok := n.(*ast.AssignStmt)
-			if !ok || len(as.Lhs) != len(as.Rhs) {
-				return true
-			}
-			for i := range as.Lhs {
-				l, lok := ast.Unparen(as.Lhs[i]).(*ast.Ident)
-				r, rok := ast.Unparen(as.Rhs[i]).(*ast.Ident)
-				if !lok || !rok {
-					continue
-				}
-				lo, ro := info.ObjectOf(l), info.ObjectOf(r)
-				if sets[lo] != sets[ro] {
-					sets[lo], sets[ro] = true, true
-					changed = true
-				}
-			}
-			return true
-		})
-	}
+	sets := definedTypeSets(info, fd)
 	if len(sets) == 0 {
 		c.Undecide("Validate: no set of defined names is passed to typeDefined")
 		return
@@ -542,7 +659,7 @@ func definedSetHoldsTypes(c *core.Ctx, p *load.Prog, fd *ast.FuncDecl) {
 		case *ast.RangeStmt:
 			for _, kv := range []ast.Expr{x.Key, x.Value} {
 				if id, ok := kv.(*ast.Ident); ok && id.Name != "_" {
-					rangeOf[info.ObjectOf(id)] = wire.Canon(x.X)
+					rangeOf[info.ObjectOf(id)] = collectionName(info, x.X)
 				}
 			}
 		case *ast.AssignStmt:
@@ -581,14 +698,12 @@ func definedSetHoldsTypes(c *core.Ctx, p *load.Prog, fd *ast.FuncDecl) {
 		return res
 	}
 	allowed := func(coll string) bool {
-		switch {
-		case coll == "primitiveTypes":
+		switch coll {
+		case "primitiveTypes", "File.Enums", "File.Structs", "File.Messages", "File.Unions":
 			return true
-		case strings.HasSuffix(coll, ".Enums"), strings.HasSuffix(coll, ".Structs"), strings.HasSuffix(coll, ".Messages"), strings.HasSuffix(coll, ".Unions"):
-			return true
-		case strings.HasSuffix(coll, ".sortedFields()"):
+		case "Union.sortedFields()", "Union.Fields":
 			// union branches define record types; message fields do not
-			return strings.HasPrefix(coll, "un.")
+			return true
 		}
 		return false
 	}
@@ -621,4 +736,91 @@ func definedSetHoldsTypes(c *core.Ctx, p *load.Prog, fd *ast.FuncDecl) {
 	})
 	c.Count("defined_set_writes", n)
 	c.Floor("defined_set_writes", 5)
+}
+
+
+// fileField returns the field name when e selects a field of a value of the
+// package's File type ("" otherwise), whatever the variable is called.
+func fileField(info *types.Info, e ast.Expr) string {
+	sel, ok := ast.Unparen(e).(*ast.SelectorExpr)
+	if !ok {
+		return ""
+	}
+	if typeBaseName(info.TypeOf(sel.X)) != "File" {
+		return ""
+	}
+	return sel.Sel.Name
+}
+
+func typeBaseName(t types.Type) string {
+	if t == nil {
+		return ""
+	}
+	if p, ok := t.(*types.Pointer); ok {
+		t = p.Elem()
+	}
+	if n, ok := t.(*types.Named); ok {
+		return n.Obj().Name()
+	}
+	return ""
+}
+
+// collectionName names what a range statement iterates over independently of
+// variable names: "File.Enums", "Union.sortedFields()", or a package-level
+// identifier such as "primitiveTypes".
+func collectionName(info *types.Info, e ast.Expr) string {
+	switch x := ast.Unparen(e).(type) {
+	case *ast.SelectorExpr:
+		if tn := typeBaseName(info.TypeOf(x.X)); tn != "" {
+			return tn + "." + x.Sel.Name
+		}
+	case *ast.CallExpr:
+		if sel, ok := ast.Unparen(x.Fun).(*ast.SelectorExpr); ok {
+			if tn := typeBaseName(info.TypeOf(sel.X)); tn != "" {
+				return tn + "." + sel.Sel.Name + "()"
+			}
+		}
+	case *ast.Ident:
+		return x.Name
+	}
+	return wire.Canon(e)
+}
+
+
+// definedTypeSets: the map variables of fd that reach typeDefined's second
+// argument, closed under `a := b` aliasing.
+func definedTypeSets(info *types.Info, fd *ast.FuncDecl) map[types.Object]bool {
+	sets := map[types.Object]bool{}
+	ast.Inspect(fd.Body, func(n ast.Node) bool {
+		if call, ok := n.(*ast.CallExpr); ok && wire.Canon(call.Fun) == "typeDefined" && len(call.Args) == 2 {
+			if id, ok := ast.Unparen(call.Args[1]).(*ast.Ident); ok {
+				sets[info.ObjectOf(id)] = true
+			}
+		}
+		return true
+	})
+	// alias closure: a := b makes writes to either visible through both
+	for changed := true; changed; {
+		changed = false
+		ast.Inspect(fd.Body, func(n ast.Node) bool {
+			as, ok := n.(*ast.AssignStmt)
+			if !ok || len(as.Lhs) != len(as.Rhs) {
+				return true
+			}
+			for i := range as.Lhs {
+				l, lok := ast.Unparen(as.Lhs[i]).(*ast.Ident)
+				r, rok := ast.Unparen(as.Rhs[i]).(*ast.Ident)
+				if !lok || !rok {
+					continue
+				}
+				lo, ro := info.ObjectOf(l), info.ObjectOf(r)
+				if sets[lo] != sets[ro] {
+					sets[lo], sets[ro] = true, true
+					changed = true
+				}
+			}
+			return true
+		})
+	}
+	return sets
 }
